@@ -2,12 +2,13 @@
 SPECIFICATION Spec
 CONSTANTS
   MeshNames = {"line", "rect", "tri", "prod", "box", "tet"}
-  RefineOn = {"line", "rect", "tri"}
+  RefineOn = {"line", "tri"}
   MaxLevel = 1
   GeomIds = {1, 2, 3, 4, 5, 6, 7, 8, 9, 10, 11, 12, 13, 14, 15, 16, 17, 18, 19, 20, 21}
-  FieldIds = {1, 2, 4, 7, 11, 13}
+  FieldIds = {2, 7, 13}
   Lattice = 2
-  IntegrateOn = {"line", "rect", "tri", "box", "tet"}
+  Lattice3 = 1
+  IntegrateOn = {"line", "rect", "tri", "tet"}
   GmMutant = "none"
 INVARIANT TypeOK
 INVARIANT GradIsDerivative
